@@ -1,5 +1,4 @@
 SPECIFICATION Spec
-CONSTANT Scope = "full"
-CONSTANT Decoder = "today"
+CONSTANT Decoder = "old"
 INVARIANT RoundTripHolds
 CHECK_DEADLOCK FALSE
